@@ -98,6 +98,7 @@ def one(ctx, data, meta=None, nvar=3, seed=None):
             trees, roots = exposed_trees(data, html)
             mt = ctx.drv.ask({**pk.model_case(data, html, True)[0], 'op': 'merged'})
             ctx.count('model: merged tree is a fixed point of merge_elems' if not mt.get('<again>') else 'model: merging again changes ' + ','.join(mt['<again>']))
+            ctx.count('model: every part satisfies goodTree (hypothesis of mergeElems_idem)' if not mt.get('<notgood>') else 'model: goodTree fails for ' + ','.join(mt['<notgood>']))
             if mt.get('<again>'): ctx.note_once('model-merge-not-idempotent', {**case, 'parts': mt['<again>']}) if hasattr(ctx, 'note_once') else None
             for path, t in trees.items():
                 if path in mt and 'ok' in mt[path]:
